@@ -1,2 +1,38 @@
-(* C01 — bigWig write/read round trip.  Statements only. *)
-From BT Require Import Base.Util.
+(* C01 — bigWig write/read round trip.  Statements only, each closed by [exact].
+
+   Level reached so far (list level): what the writer's input checks guarantee about the values
+   of a chromosome, that cutting them into blocks of items_per_slot and reading back only the
+   blocks the index reports loses nothing, and that a full-span read returns every value
+   unchanged and in order except zero-length values at position 0 / at the chromosome end
+   (known finding K1).  The byte level (encode section -> bytes -> decode section, index bytes ->
+   search) is Properties/C05.v plus the byte-exact correspondence of Model/BigWigWrite.v and
+   Model/BBIRead.v with the real writer and reader. *)
+From BT Require Import Base.Util Base.Float Model.RTree Model.BBIFile Model.BigWigWrite Model.BBIRead
+  Proofs.Chunks Proofs.BigWigQuery.
+Local Open Scope N_scope.
+
+(* the writer's per-chromosome check accepts exactly the well-formed value lists:
+   start <= end <= chromosome length for every value, and no value starts before its
+   predecessor ends *)
+Theorem C01_accept_iff : forall len vals, check_chrom len vals = Ok tt <-> wf_vals len vals.
+Proof. intros len vals. split; [exact (check_chrom_wf len vals)|exact (wf_check_chrom len vals)]. Qed.
+Print Assumptions C01_accept_iff.
+
+(* for every block size: answering a range query from the blocks the index test selects is
+   answering it from the whole value list, in order *)
+Theorem C01_query_sections : forall len ips s e vals, (0 < ips)%nat -> wf_vals len vals ->
+  flat_map (clip_filter s e) (filter (chunk_hit s e) (chunks ips vals)) = clip_filter s e vals.
+Proof. exact query_sections. Qed.
+Print Assumptions C01_query_sections.
+
+(* full-span read: every accepted value comes back bit-identical and in order, except
+   zero-length values at 0 or at the chromosome end *)
+Theorem C01_full_span_read : forall len vals, wf_vals len vals ->
+  clip_filter 0 len vals = filter (fun v => negb (boundary_zero len v)) vals.
+Proof. exact full_span_read. Qed.
+Print Assumptions C01_full_span_read.
+
+Theorem C01_roundtrip_exact : forall len vals, wf_vals len vals ->
+  Forall (fun v => boundary_zero len v = false) vals -> clip_filter 0 len vals = vals.
+Proof. exact full_span_read_exact. Qed.
+Print Assumptions C01_roundtrip_exact.
